@@ -1,6 +1,7 @@
 import TerwayModel.Driver.Common
 import TerwayModel.Driver.Net
 import TerwayModel.Driver.Token
+import TerwayModel.Driver.VSwitch
 /-
 `drv`: reads one operation per line (`<model>.<op> arg…`), prints one canonical line per input.
 Malformed or unknown lines print `bad-op` — never a default value.
@@ -9,6 +10,7 @@ open Terway.Drv
 
 structure St where
   tok : Token.St := {}
+  vsw : VSwitch.St := VSwitch.St.init
 
 def dispatch (st : St) (line : String) : St × String :=
   match words line with
@@ -20,6 +22,10 @@ def dispatch (st : St) (line : String) : St × String :=
     | ["tok", op] =>
       match Token.step st.tok op args with
       | some (t, o) => ({ st with tok := t }, o)
+      | none => (st, "bad-op")
+    | ["vsw", op] =>
+      match VSwitch.step st.vsw op args with
+      | some (t, o) => ({ st with vsw := t }, o)
       | none => (st, "bad-op")
     | _ => (st, "bad-op")
 
